@@ -396,6 +396,12 @@ fn gen_plan_c(seed: u64, tier: Tier) -> PlanC {
             let s = rng.u64();
             let mut plan = crate::checks_b::gen_plan_b(s, tier);
             plan.faults = "all".into();
+            // at-rest corruption of stored continuations / verify states
+            for _ in 0..rng.below(4) {
+                let at = rng.usize_below(plan.steps.len() + 1);
+                let st = crate::world_b::Step::CorruptStore { ex: rng.below(3) as u8, party: rng.below(2) as u8, m: gen_mut_raw(&mut rng) };
+                plan.steps.insert(at, st);
+            }
             PlanC::B { plan }
         }
         _ => PlanC::D { plan: gen_plan_d(&mut rng) },
